@@ -51,11 +51,6 @@ def classify(f, case):
         if claim == "tokenise_raises.TokenisationException" and "Invalid remaining rest value" in str(w.get("msg", "")) \
                 and not info.get("greedy_safe", True):
             return "greedy_rest_decomposition"
-        if claim == "duration" and not info.get("duration_ok", True):
-            return "clock_stops_before_piece_end"
-        if claim == "bar_caps" and info.get("clock_short") and not w.get("extra") and w.get("missing") \
-                and all(x > info.get("clock_end", 10 ** 9) for x in w["missing"]):
-            return "clock_stops_before_piece_end"
     return None
 
 
@@ -148,9 +143,7 @@ def compare_roundtrip(tok, seqs, src_ts, info=None):
     LOG.n("c01.bar_lines_compared", len(ends))
     for k, o in enumerate(out):
         caps = sorted(m.time for m in o.abs._messages if m.message_type.value == "internal")
-        # the very last bar line coincides with the end of the piece: it is observable through the duration (checked
-        # below), a cap message there is not required
-        if caps != ends and caps != ends[:-1]:
+        if caps != ends:
             fails.append(fail("bar_caps", {"track": k, "expected": ends[:8], "caps": caps[:8],
                                            "missing": [x for x in ends if x not in caps][:8], "extra": [x for x in caps if x not in ends][:8]}))
             break
